@@ -107,6 +107,8 @@ class _FieldOfDressed:
             )
         else:
             self.content = None
+            # a dictionary for a nested hybrid object holds python names
+            value = _py_to_xo_names(container._XoStruct, self.name, value)
             setattr(container._xobject, self.name, value)
             if _is_reference_type(
                 getattr(container._XoStruct, self.name).ftype
